@@ -195,12 +195,74 @@ def observe(expr, want_value):
         o['elem_dict'] = {k: sorted(expr.dict_of_elementary_expression(t).keys()) for k, t in ELEM_TYPES.items()}
     except Exception as e:  # noqa
         o['elem_exc'] = exc(e)
+    o['view'] = generic_view(expr)
     if want_value:
         try:
             v = float(expr.get_value())
             o['value'] = v.hex()
         except Exception as e:  # noqa
             o['value_exc'] = exc(e)
+    return o
+
+
+_DB = None
+
+
+def database():
+    global _DB
+    if _DB is None:
+        import pandas as pd
+        import biogeme.database as bdb
+        cols = ['x', 'y', 'z', 'tt', 'cost', 'inc', 'male', 'age', 'lang']
+        _DB = bdb.Database('c16', pd.DataFrame({k: [1.0, 2.0] for k in cols}))
+    return _DB
+
+
+_SIG = None
+
+
+def canonical_signature(expr):
+    """get_signature() with the object identities eliminated: every id is replaced, recursively, by
+    the canonical form of the line that defines it (sharing of sub-objects becomes invisible)."""
+    import re
+    from biogeme.expressions import IdManager
+    idm = IdManager([expr], database(), 0)
+    expr.set_id_manager(idm)
+    lines = [l.decode() for l in expr.get_signature()]
+    table = {}
+    rx = re.compile(r'^<(\w+)>\{(\d+)\}(.*)$', re.S)
+    for l in lines:
+        m = rx.match(l)
+        if not m:
+            raise ValueError(f'unparsable signature line {l!r}')
+        table[m.group(2)] = (m.group(1), m.group(3))
+    root = rx.match(lines[-1]).group(2)
+
+    def canon(i, depth=0):
+        if depth > 200:
+            raise ValueError('cyclic signature')
+        name, rest = table[i]
+        rest = re.sub(r'\d+', lambda mm: '[' + canon(mm.group(0), depth + 1) + ']' if mm.group(0) in table else mm.group(0), rest)
+        return f'<{name}>{rest}'
+
+    return canon(root)
+
+
+def shape(x):
+    """the tree as seen through get_children() only"""
+    return [shape(c) for c in x.get_children()]
+
+
+def generic_view(expr):
+    o = {}
+    try:
+        o['shape'] = shape(expr)
+    except Exception as e:  # noqa
+        o['shape'] = exc(e)
+    try:
+        o['sig'] = canonical_signature(expr)
+    except Exception as e:  # noqa
+        o['sig'] = {'exc': type(e).__name__}
     return o
 
 
@@ -268,6 +330,11 @@ def run_structure(c):
             r['id'] = conf.string_id
             expr.configure_catalogs(conf)
             r.update(observe(expr, q.get('value', False)))
+            if q.get('hand') is not None:
+                try:
+                    r['hand_view'] = generic_view(Builder({}).node(q['hand']))
+                except Exception as e:  # noqa
+                    r['hand_view'] = exc(e)
             if q.get('hand') is not None and q.get('value', False):
                 r['hand_value'] = hand_value(q['hand'])
         except Exception as e:  # noqa
